@@ -74,7 +74,9 @@ fn count_bits_set_in_matrix(matrix: &[u64]) -> u32 {
 }
 
 fn determine_flavor(lg_k: u8, num_coupons: u32) -> Flavor {
-    let k = 1 << lg_k;
+    // 64-bit arithmetic: num_coupons << 5 and 27 * k exceed u32 for large sketches
+    let k = 1u64 << lg_k;
+    let num_coupons = num_coupons as u64;
     let c2 = num_coupons << 1;
     let c8 = num_coupons << 3;
     let c32 = num_coupons << 5;
